@@ -1010,8 +1010,94 @@ def run_dependency_case(case):
     return fails
 
 
+def gen_paired_case(rng):
+    """Paired (advanced) list indices on two or more axes - block axes and order axes - whose pairs do
+    NOT fill the Cartesian box of the per-axis selections.  Elements of the box that numpy does not
+    select raise when evaluated (with probability 1/2)."""
+    while True:
+        shape = rng.choice([(), (2,), (3,), (2, 2), (2, 3), (3, 3), (3, 2)])
+        ninf = rng.choice([1, 2, 2, 3])
+        if len(shape) + ninf >= 2:
+            break
+    nax = len(shape) + ninf
+    N = 3
+    sizes = list(shape) + [N + 1] * ninf
+    k = rng.randint(2, min(3, nax))
+    axes = sorted(rng.sample(range(nax), k))
+    L = rng.choice([2, 2, 3])
+    for _ in range(50):
+        cols = {a: [rng.randrange(sizes[a]) for _ in range(L)] for a in axes}
+        pairs = {tuple(cols[a][t] for a in axes) for t in range(L)}
+        box = 1
+        for a in axes:
+            box *= len(set(cols[a]))
+        if len(pairs) < box:
+            break
+    item = []
+    for a in range(nax):
+        if a in axes:
+            item.append(cols[a])
+        elif rng.random() < 0.5:
+            item.append(rng.randrange(sizes[a]))
+        else:
+            lo = rng.randrange(sizes[a])
+            item.append(["slice", lo, rng.randint(lo, sizes[a]), None])
+    return dict(kind="paired", shape=list(shape), ninf=ninf, N=N, item=item, raise_outside=rng.random() < 0.5, tag0=rng.randint(1, 50))
+
+
+def run_paired_case(case):
+    from pymablock.series import BlockSeries
+
+    fails = []
+    shape, ninf, item = tuple(case["shape"]), case["ninf"], case["item"]
+    nf = len(shape)
+    pit = _py_item(item)
+    ext = needed_extent(item[nf:])
+    full = shape + tuple(ext)
+    P = np.empty(full, dtype=object)
+    for i in itertools.product(*(range(d) for d in full)):
+        P[i] = i
+    sel_arr = P[pit]
+    selected = [tuple(x) for x in (sel_arr.reshape(-1) if isinstance(sel_arr, np.ndarray) else [sel_arr])]
+    sel = set(selected)
+    value = lambda i: case["tag0"] + sum((7 ** k) * x for k, x in enumerate(i))  # noqa: E731
+    log = []
+
+    def ev(*index):
+        i = tuple(int(x) for x in index)
+        log.append(i)
+        if case["raise_outside"] and i not in sel:
+            raise ValueError("element %r is not selected by the request" % (i,))
+        return value(i)
+
+    s = BlockSeries(eval=ev, shape=shape, n_infinite=ninf)
+    try:
+        got = s[pit]
+    except BaseException as e:  # noqa: BLE001
+        fails.append(dict(what="request failed with %s: an element outside the numpy-selected set was evaluated: %s" % (type(e).__name__, [list(i) for i in log if i not in sel][:3]), input=case, item=item, expected=sorted(map(list, sel)), observed=[list(i) for i in log]))
+        got = None
+    extra = sorted(set(log) - sel)
+    missing = sorted(sel - set(log)) if got is not None else []
+    if extra or missing:
+        fails.append(dict(what="evaluated set differs from the set numpy indexing selects (extra %s, missing %s)" % ([list(i) for i in extra[:4]], [list(i) for i in missing[:4]]), input=case, item=item, expected=sorted(map(list, sel)), observed=sorted(map(list, set(log)))))
+    if len(set(log)) != len(log):
+        fails.append(dict(what="an element was evaluated twice", input=case, item=item))
+    cached = {tuple(int(x) for x in k) for k in s._data}
+    if got is not None and cached != sel:
+        fails.append(dict(what="cache holds other keys than the selected elements after the request: extra %s" % sorted(map(list, cached - sel))[:4], input=case, item=item, expected=sorted(map(list, sel)), observed=sorted(map(list, cached))))
+    if got is not None:
+        want = [value(i) for i in selected]
+        g = [int(x) for x in np.asarray(np.ma.getdata(got)).reshape(-1)] if isinstance(got, np.ndarray) else [int(got)]
+        if g != want or tuple(np.shape(got)) != tuple(np.shape(sel_arr) if isinstance(sel_arr, np.ndarray) else ()):
+            fails.append(dict(what="values differ from dense_array[item]", input=case, item=item, expected=want, observed=g))
+    return fails
+
+
 def gen_protocol_case(rng):
-    if rng.random() < 0.45:
+    r = rng.random()
+    if r < 0.3:
+        return gen_paired_case(rng)
+    if r < 0.6:
         return gen_dependency_case(rng)
     shape = rng.choice([(), (2,), (2, 2), (2, 3)])
     ninf = rng.choice([1, 1, 2])
@@ -1044,6 +1130,8 @@ def run_c19_case(case):
         return run_getitem_case(case)
     if case["kind"] == "dependency":
         return run_dependency_case(case)
+    if case["kind"] == "paired":
+        return run_paired_case(case)
     return run_protocol_case(case)
 
 
@@ -1054,7 +1142,7 @@ def oracle_getitem(ctx, ncases=None):
     nontrivial = set()
     evaluations = 0
     for k in range(n):
-        case = gen_getitem_case(rng) if rng.random() < 0.65 else gen_protocol_case(rng)
+        case = gen_getitem_case(rng) if rng.random() < 0.55 else gen_protocol_case(rng)
         try:
             f = run_c19_case(case)
         except Exception as e:  # noqa: BLE001
